@@ -71,7 +71,7 @@ struct LtWorld : World {
         case LT_GETMULTI: op.d = mtm ? 1 : (int)r.below(2); break;
         case LT_WALK: op.d = (int)r.below(4); break;
         case LT_LOCKEDWALK: op.d = (int)r.below(2); break;
-        case LT_WALKREMOVE: op.b = (int)r.below(1 << 16); op.d = (int)r.below(2) << 1; if (r.chance(1, 4)) op.b = 0xffff; break;
+        case LT_WALKREMOVE: op.b = (int)r.below(1 << 16); op.d = ((int)r.below(2) << 1) | (int)r.below(2); if (r.chance(1, 4)) op.b = 0xffff; break;
         case LT_SAVELOAD: op.d = (int)r.below(2); break;
         case LT_LOADFILE: op.b = (int)r.below(1 << 20); op.c = r.range(0, 5); op.d = (int)r.below(8); break;
         default: break;
@@ -131,7 +131,10 @@ struct LtWorld : World {
         }
     }
     void sut_abandon() override { t = nullptr; pending = nullptr; }
-    void *sut_mutex() override { return nullptr; }
+#if QSIM_STRUCT
+    void *sut_mutex() override { return t ? t->qmutex : nullptr; }
+    bool sut_sees_mutex() override { return true; }
+#endif
     bool sut_user_lock() override { InSutLock s; t->lock(t); return true; }
     void sut_force_unlock() override { InSutLock s; t->unlock(t); }
     void sut_probe(Ctx &) override { InSut s; t->get(t, "probe-key", nullptr, false); }
@@ -251,11 +254,14 @@ struct LtWorld : World {
             return R_ok(num((long long)n));
         }
         case LT_WALK: case LT_LOCKEDWALK: case LT_WALKREMOVE: {
-            bool newmem = (op.k != LT_WALKREMOVE) && (op.d & 1); bool filtered = (op.d >> 1) & 1;
+            bool newmem = (op.d & 1); bool filtered = (op.d >> 1) & 1;      // walkremove with newmem: removeobj() on a copying cursor, as the documentation shows
             if (op.k == LT_LOCKEDWALK) filtered = false;
             CallerBuf kb(kz);
             const char *kp = filtered ? (const char *)kb.p : nullptr;
             if (op.k == LT_LOCKEDWALK) { InSutLock s; t->lock(t); }
+            // a walk that removes entries is a compound operation: a step failing half way would leave the earlier removals in
+            // place, which is not a defect - it is never a fault target
+            struct MaybeBk { bool on; MaybeBk(bool o) : on(o) { if (on) sim_fault_suspend(true); } ~MaybeBk() { if (on) sim_fault_suspend(false); } } mbk(op.k == LT_WALKREMOVE);
             qlisttbl_obj_t o; memset(&o, 0, sizeof o);
             Bytes out; size_t cnt = 0, guard = t->size(t) * 2 + 8; int removed = 0; bool failed = false; int fired_seen = sim_fault_fired(), retries = 0;
             for (;;) {
